@@ -5,6 +5,7 @@ import (
 	"encoding/json"
 	"fmt"
 	"net"
+	"unsafe"
 
 	stun "github.com/pion/stun/v3"
 
@@ -225,6 +226,29 @@ func c08Run(k c08Case) (outcome, key, detail string) {
 				if u < nd && !bytes.Equal(m.Raw, c08Msgs[u%len(c08Msgs)]) {
 					key, detail = "input-aliased", fmt.Sprintf("%s: Raw changed when the caller overwrote its input", c08UseName(u))
 					return
+				}
+				if u < nd {
+					// absolute check (the fresh twin shares any aliasing bug): after the caller overwrote its input the
+					// decoded content must still be that of the original bytes, and every value must live inside m.Raw
+					want, _ := ref.Parse(c08Msgs[u%len(c08Msgs)])
+					if want == nil || len(want.Attrs) != len(m.Attributes) {
+						key, detail = "input-aliased", fmt.Sprintf("%s: attribute list differs from the reference parse of the input", c08UseName(u))
+						return
+					}
+					for i, a := range m.Attributes {
+						if !bytes.Equal(a.Value, want.Attrs[i].Value) {
+							key, detail = "input-aliased", fmt.Sprintf("%s: attribute %d reads %x after the caller overwrote its input buffer, the message carried %x", c08UseName(u), i, clip(a.Value), clip(want.Attrs[i].Value))
+							return
+						}
+						if len(a.Value) > 0 {
+							p := uintptr(unsafe.Pointer(unsafe.SliceData(a.Value)))
+							lo := uintptr(unsafe.Pointer(unsafe.SliceData(m.Raw)))
+							if p < lo || p+uintptr(len(a.Value)) > lo+uintptr(len(m.Raw)) {
+								key, detail = "value-outside-raw", fmt.Sprintf("%s: attribute %d does not point into m.Raw", c08UseName(u), i)
+								return
+							}
+						}
+					}
 				}
 				// results of MarshalBinary and CloneTo are unaffected by later changes to the source
 				mb, _ := m.MarshalBinary()
